@@ -378,6 +378,7 @@ func probeTeardownDuringWrite(how string) string {
 	releaseAll := func() {
 		g.mu.Lock()
 		g.active = false
+		g.w = nil
 		ps := g.parked
 		g.parked = nil
 		g.mu.Unlock()
